@@ -80,6 +80,15 @@ def check_history(res, case, batches, betas, logzs, beta, deep):
     res.outcome((tuple(map(tuple, batches)), tuple(betas), tuple(logzs), beta), nontrivial=nonuni and len(set(sizes)) > 1)
     if not deep:
         return
+    # (3b) the caller's numpy error state may change how floating-point events are reported, never the values
+    from mc import forms as fm
+    for sname, (okind, val) in fm.under_errstates(lambda: build(batches, betas, logzs).compute_logw_and_logz(beta, normalize=False)):
+        res.evals += 1
+        if okind == "raised":
+            res.bump("errstate_raises")
+        elif not fm.same(val[0], lw, rtol=1e-12, atol=tol) or not fm.same(val[1], lz, rtol=1e-12, atol=tol):
+            res.violate("formula:errstate", f"with numpy error state {sname} in force the log-weights / logZ are {np.asarray(val[0]).tolist()} / {val[1]!r}, under the default state {lw.tolist()} / {lz!r}", dict(key_case, errstate=sname))
+            break
     T = len(batches)
     # (4) order of iterations must not matter
     offs = np.cumsum([0] + sizes)
